@@ -89,7 +89,7 @@ func (ex *Exec) call(fr *Frame, st *State, site ssa.Instruction, c *ssa.CallComm
 }
 
 func (ex *Exec) havocCall(st *State, sig *types.Signature) []Val {
-	st.heap.havocAll()
+	ex.preservingPrivate(st, st.heap.havocAll)
 	return ex.freshResults(st, sig, "ret")
 }
 
@@ -128,6 +128,13 @@ func (ex *Exec) dispatch(fr *Frame, st *State, site ssa.Instruction, fn *ssa.Fun
 	}
 	if ex.spec == 0 {
 		ex.note("%s: call to %s without contract havoced", fr.label, full)
+	}
+	if pk := ex.prog.pkgOf(fn); pk == nil || !strings.HasPrefix(pk.PkgPath, modPath) {
+		// A dependency: arbitrary effect on the program heap, but the ghost resource state (which
+		// only the contracts of this module talk about) is not touched.
+		ex.assumed["functions of dependencies called without contract havoc the program heap but never open or close log readers (ghost state unchanged)"] = true
+		ex.preservingPrivate(st, st.heap.havocReal)
+		return ex.freshResults(st, fn.Signature, "ret")
 	}
 	return ex.havocCall(st, fn.Signature)
 }
@@ -463,8 +470,13 @@ func (ex *Exec) applyModifies(st, pre *State, mods []*Clause, mkEnv func() *Spec
 // havocLvalue havocs one frame item: "*" (everything), "x.f", "*p", "m[*]", "s[*]", ghost "g()", "g(x)".
 func (ex *Exec) havocLvalue(st *State, env *SpecEnv, text string) {
 	text = strings.TrimSpace(text)
-	if text == "*" || text == "everything" {
-		st.heap.havocAll()
+	if text == "*" {
+		// the whole program heap; ghost state only changes where a ghost item says so
+		ex.preservingPrivate(st, st.heap.havocReal)
+		return
+	}
+	if text == "everything" {
+		ex.preservingPrivate(st, st.heap.havocAll)
 		return
 	}
 	if strings.HasSuffix(text, "[*]") {
@@ -495,20 +507,9 @@ func (ex *Exec) havocLvalue(st *State, env *SpecEnv, text string) {
 			unsupp("modifies %s: %v", text, pc.err)
 		}
 		env.info = pc.info
-		ex.spec++
-		v := env.eval(pc.expr)
-		ex.spec--
-		var root *Term
-		switch x := v.(type) {
-		case *Term:
-			root = x
-		case *Agg:
-			if len(x.F) == 2 {
-				root = x.F[1].(*Term) // interface payload
-			}
-		}
+		root := ex.objectRoot(env, pc)
 		if root == nil {
-			unsupp("modifies %s: not a pointer or interface", text)
+			unsupp("modifies %s: not a pointer, interface or addressable variable", text)
 		}
 		ex.havocUnder(st, root)
 		return
@@ -517,7 +518,20 @@ func (ex *Exec) havocLvalue(st *State, env *SpecEnv, text string) {
 		// ghost state
 		name := text[:strings.Index(text, "(")]
 		if g := ex.ghostByName(env.pkg.PkgPath, name); g != nil {
-			ex.ghostHavoc(st, g)
+			argText := strings.TrimSpace(text[strings.Index(text, "(")+1 : len(text)-1])
+			var key *Term
+			if argText != "" && argText != "*" {
+				pc := ex.parseClause(env.pkg, env.pos, argText)
+				if pc.err != nil {
+					unsupp("modifies %s: %v", text, pc.err)
+				}
+				env.info = pc.info
+				ex.spec++
+				fl := flatten(env.eval(pc.expr), nil)
+				ex.spec--
+				key = fl[len(fl)-1]
+			}
+			ex.ghostHavoc(st, g, key)
 			return
 		}
 	}
@@ -895,7 +909,7 @@ func (ex *Exec) ifaceCall(fr *Frame, st *State, site ssa.Instruction, named *typ
 		return ex.abstractInvoke(st, named, m, append([]Val{recv}, args...))
 	}
 	if !con.HasMod {
-		st.heap.havocAll()
+		ex.preservingPrivate(st, st.heap.havocAll)
 	} else {
 		ex.applyModifies(st, pre, con.Modifies, func() *SpecEnv { return ex.ifaceEnv(named, m, recv, args, pre, pre, nil) })
 	}
@@ -1163,4 +1177,29 @@ func (ex *Exec) havocUnder(st *State, root *Term) {
 		ex.fact(nil, Forall([]*Term{p}, Or(underPred(p, func(q *Term) *Term { return Eq(q, root) }, 3), SameVal(Select(nw, p), Select(old, p)))))
 		st.heap.set(n, nw)
 	}
+}
+
+
+// objectRoot: the object denoted by `x` in a frame item `x.*`: the pointee of a pointer, the
+// dynamic value of an interface, or the heap cell of an addressable (escaping) local variable.
+func (ex *Exec) objectRoot(env *SpecEnv, pc *parsedClause) (root *Term) {
+	t := pc.info.Types[pc.expr].Type
+	ex.spec++
+	defer func() { ex.spec-- }()
+	switch t.Underlying().(type) {
+	case *types.Pointer:
+		return env.eval(pc.expr).(*Term)
+	case *types.Interface:
+		return env.eval(pc.expr).(*Agg).F[1].(*Term)
+	}
+	defer func() {
+		if r := recover(); r != nil {
+			if _, ok := r.(unsupported); ok {
+				root = nil
+				return
+			}
+			panic(r)
+		}
+	}()
+	return env.addrOf(pc.expr)
 }
